@@ -185,4 +185,13 @@ def run(repo, tier):
     res.floor('loops-examined', 8)
     from .common import run_clone_pairs
     run_clone_pairs(repo, res, {m for m in repo.modules if m.startswith('photutils.aperture') and '.tests' not in m})
+    for mod_, cls_ in (('circle', 'CircularMaskMixin'), ('ellipse', 'EllipticalMaskMixin'), ('rectangle', 'RectangularMaskMixin')):
+        tm = repo.method(f'photutils.aperture.{mod_}.{cls_}', 'to_mask')
+        apps = [c_ for c_ in ast.walk(tm.node) if isinstance(c_, ast.Call) and unparse(c_.func, 0) == 'masks.append']
+        okm = len(apps) == 1 and nf(apps[0].args[0]) == nf_text('ApertureMask(mask, bbox)')
+        res.oblige('SPEC', f'{cls_}.to_mask: one ApertureMask(mask, bbox) per position, each with its own weight array', okm, nontrivial=True)
+        if not okm:
+            res.add(Finding('SPEC', tm.fullname, 'one fresh mask per position', tm.loc,
+                            f'{cls_}.to_mask must append exactly ApertureMask(mask, bbox) once per position: masks that share one weight '
+                            f'array see each other\'s in-place edits (area_overlap zeroes masked pixels in place)', {}))
     return res
